@@ -82,6 +82,10 @@ CLAIMS = {
          "Theorems C17_*_allocates_first: for every parameter list, allocator kind and operand state the model's construction, reserve, copy construction, copy assignment, move assignment between unequal allocators and the element's construction / copy / move assignment emit ALL their allocations before any construction, destruction, move or release (induction over the event producers). C17_failed_step_changes_nothing / _returns_its_blocks: a step whose k-th allocation fails leaves all vectors and elements as they were (strong guarantee) and releases the blocks it obtained. Scope: only the allocator throws. "
          "Tie (this is where the real code is decided; it did terminate, double-free and double-destroy before four fix commits): for generated vector / element / single-vector histories every allocating step x every allocation index (1st, 2nd, 3rd) fails in turn - ~1700 (quick) fault scripts on 18 lists x 6 allocator kinds; after the throw every live vector and element is observed and compared with the model and with the unchanged spec state; guard zones, double free, leak check after destroying everything, live-object registry; retry of the failed operation.",
          "5 C17"),
+ "C19": ("proof over all interleavings of the footprints of const operations (partial: memory model not modelled) + mprotect tie of the footprints to the code",
+         "PARTIAL. Theorem C19_const_operations_never_conflict: for every parameter list, vector state, number of threads, programs of const operations (queries, element access, iteration, comparison, copying, element construction) and every interleaving of their accesses, no two accesses of different threads conflict; from: reads touch only shared state, writes only memory the executing thread obtained during the operation; distinct vectors have disjoint locations. Footprints are defined from the model's own functions. "
+         "Tie: the vector object, its data block and its address table are on pages of their own and write-protected; the catalogue of const operations (all accessors, iteration over references, all six operators against a copy / changed copy / unrelated vector, copy construction, elements from front/back references) runs single threaded and from 4 (quick) / 16 (thorough) threads; a store into shared state is a SIGSEGV reported with the script as replay; results are compared with the model's. NOT exhibited: hardware/compiler memory model and the allocator's own synchronisation; the thorough tier runs the same scripts under ThreadSanitizer as supporting evidence only.",
+         "5 C19"),
 }
 
 checks = []
